@@ -67,7 +67,7 @@ def ref_id(ref):
     return ref[1] if ref[0] == 'id' else None
 
 
-def check_message(s, doc, pretty):
+def check_message(s, doc, pretty, mo=None, phase='fresh'):
     try:
         root = ET.fromstring(doc)
     except ET.ParseError:
@@ -75,17 +75,18 @@ def check_message(s, doc, pretty):
     m = interpret(root)
     if m.kind is None or m.kind == 'roCreate':
         return
-    try:
-        mo = s.load(doc)
-    except Exception as e:
-        s.hist['unloadable:' + type(e).__name__] += 1
-        return
+    if mo is None:
+        try:
+            mo = s.load(doc)
+        except Exception as e:
+            s.hist['unloadable:' + type(e).__name__] += 1
+            return
     kind = m.kind
     table = ACCESSORS.get(kind)
     if table is None:
         return
     s.evaluations += 1
-    wit = {'type': 'message', 'doc': doc}
+    wit = {'type': 'message', 'doc': doc, 'phase': phase}
     in_claim = m.shape_ok
     if kind == 'roStoryMove' and not m.sources:
         in_claim = False
@@ -137,12 +138,12 @@ def check_message(s, doc, pretty):
                 shape = 'slug'
         except Exception as e:
             ok, got, shape = False, 'EXC:%s' % type(e).__name__, 'exc'
-        s.note_sig((kind, accname, shape, pretty, ok))
+        s.note_sig((kind, accname, shape, pretty, ok, phase))
         s.hist['message_accessor:%s.%s' % (kind, accname)] += 1
         if not ok and in_claim:
             s.custom_violation('message-accessor-disagrees-with-text',
                                {'kind': kind, 'accessor': accname, 'got': repr(got)[:200], 'want': repr(want)[:200]},
-                               wit, msg_kind=kind, status=accname)
+                               wit, msg_kind=kind, status=accname + ('' if phase == 'fresh' else '@' + phase))
     # inspect()
     out = io.StringIO()
     try:
@@ -171,8 +172,45 @@ def check_message(s, doc, pretty):
         s.samples.append({'kind': kind, 'doc': doc[:400], 'inspect_output': text[:200]})
 
 
+def after_merge(s, i):
+    """The message object is merged, the running order is then edited by later
+    messages aimed at what it carried, and the object's accessors are read
+    again: they must still expose exactly what the message text names."""
+    from . import c13
+    rng = s.rng('after', i)
+    pool = gen.text_pool('plain')
+    ids = gen.Ids('A%d.' % i)
+    kind = B.ALL_KINDS[i % len(B.ALL_KINDS)]
+    if kind == 'roDelete':
+        kind = 'roStorySend'
+    ro_txt = gen.rand_ro(rng, n_stories=rng.randint(2, 4), pool=pool)
+    msg_txt = gen.rand_message(rng, Abs(ro_txt), kind, 50, ids, pool=pool, shape_weights=(1.0, 0, 0, 0), selfref=0)
+    ro = s.load(ro_txt)
+    try:
+        mo = s.load(msg_txt)
+    except Exception:
+        return
+    ro, err, _ = s.add(ro, mo)
+    j = [e for e in EV.drain() if e.get('ev') == 'ADD']
+    if err is not None or not j:
+        return
+    cur = j[-1]['post_xml']
+    edits = c13.followups(rng, cur, c13.carried_story_ids(msg_txt), ids, pool, rng.randint(1, 4))
+    for k, (ek, kw) in enumerate(edits):
+        try:
+            ro, e2, _ = s.add(ro, s.load(B.msg_doc(ek, 300 + k, **kw)))
+        except Exception:
+            pass
+    EV.drain()
+    check_message(s, msg_txt, False, mo=mo, phase='after-merge-and-edits')
+    s.hist['after_merge_cases'] += 1
+
+
 def run(s):
     q = s.tier == 'quick'
+    for i in range(240 if q else 8000):
+        if s.mine(i):
+            after_merge(s, i)
     for i in range(24 if q else 900):
         if not s.mine(i):
             continue
